@@ -10,16 +10,19 @@ import (
 	"fmt"
 	"io"
 	stdlog "log"
+	"log/slog"
 	"sort"
 	"strings"
 
 	"github.com/pentops/j5/internal/j5s/protobuild"
+	plog "github.com/pentops/log.go/log"
 	"google.golang.org/protobuf/types/descriptorpb"
 )
 
 func init() {
 	// j5convert logs every error through the std logger; keep the harness output clean.
 	stdlog.SetOutput(io.Discard)
+	plog.DefaultLogger.SetLevel(slog.Level(100))
 }
 
 // MemBundle is an in-memory LocalFileSource. Files maps a bundle-relative path
